@@ -12,14 +12,14 @@ import (
 )
 
 type SpecEnv struct {
-	c         *FnCtx
-	st        *State
-	old       *SpecEnv
-	lookup    func(name string) *Val
-	bound     map[string]*Val
-	calleeKey string
-	calleePost bool // evaluating a callee's ensures at a call site (assumed, not proved)
-	alias     map[string]string // macro parameter -> identifier it was instantiated with
+	c          *FnCtx
+	st         *State
+	old        *SpecEnv
+	lookup     func(name string) *Val
+	bound      map[string]*Val
+	calleeKey  string
+	calleePost bool              // evaluating a callee's ensures at a call site (assumed, not proved)
+	alias      map[string]string // macro parameter -> identifier it was instantiated with
 }
 
 func (e *SpecEnv) realName(n string) string {
@@ -555,6 +555,8 @@ func (c *FnCtx) specCall(env *SpecEnv, x *ast.CallExpr) *Val {
 				return &Val{T: "empty_" + sortName(so), S: so}
 			}
 		}
+	case "bitand":
+		return c.binop(env.st, token.AND, arg(0), arg(1), nil, nil)
 	case "toreal":
 		return &Val{T: tApp("to_real", arg(0).T), S: SReal}
 	case "dyntype":
